@@ -106,6 +106,7 @@ func runC20(c *core.Ctx) {
 		}
 		c.Count("methods_"+s.typeName, entries)
 		helperCoverage(c, s, methods)
+		ctorRule(c, s)
 	}
 	shapeRules(c)
 	whoMayCall(c)
@@ -1064,5 +1065,96 @@ func addFn(out map[*ssa.Function]bool, f *ssa.Function) {
 	out[f] = true
 	for _, a := range f.AnonFuncs {
 		addFn(out, a)
+	}
+}
+
+// ctorRule: the package functions that hand out a Reader / Writer. Every call answers a fresh, non-nil object (the PDU
+// decoders call methods on it and defer its Release without a nil test), whose error field is nil and whose byte counter
+// is zero; the reader's buffer is built over the octets it was given - all of them, from the first.
+func ctorRule(c *core.Ctx, s *c20side) {
+	pkg := s.named.Obj().Pkg()
+	found := 0
+	for _, name := range pkg.Scope().Names() {
+		tf, ok := pkg.Scope().Lookup(name).(*types.Func)
+		if !ok {
+			continue
+		}
+		sig := tf.Type().(*types.Signature)
+		if sig.Recv() != nil || sig.Results().Len() != 1 || namedOfType(sig.Results().At(0).Type()) != s.named {
+			continue
+		}
+		if _, isPtr := sig.Results().At(0).Type().(*types.Pointer); !isPtr {
+			continue
+		}
+		fn := c.Prog.SSAFunc(tf)
+		if fn == nil || len(fn.Blocks) == 0 {
+			continue
+		}
+		found++
+		key := "packet." + name + "#ctor"
+		var problems []string
+		for _, b := range fn.Blocks {
+			ret, isRet := b.Instrs[len(b.Instrs)-1].(*ssa.Return)
+			if !isRet {
+				continue
+			}
+			al, isAl := ret.Results[0].(*ssa.Alloc)
+			if !isAl {
+				problems = append(problems, "a return does not answer an object created in the constructor (nil, or a shared one): "+ret.Results[0].String())
+				continue
+			}
+			if al.Referrers() == nil {
+				continue
+			}
+			bufSet := false
+			for _, r := range *al.Referrers() {
+				fa, isFA := r.(*ssa.FieldAddr)
+				if !isFA || fa.Referrers() == nil {
+					continue
+				}
+				_, f, okF := fieldOfAddr(fa)
+				if !okF {
+					continue
+				}
+				for _, rr := range *fa.Referrers() {
+					st, isSt := rr.(*ssa.Store)
+					if !isSt || st.Addr != ssa.Value(fa) {
+						continue
+					}
+					switch f.Name() {
+					case s.errField:
+						if !paths.IsNilConst(st.Val) {
+							problems = append(problems, "the object starts with an error recorded")
+						}
+					case s.cntField:
+						if k, isK := constInt(st.Val); !isK || k != 0 {
+							problems = append(problems, "the byte counter does not start at 0")
+						}
+					case s.bufField:
+						bufSet = true
+						call, isCall := st.Val.(*ssa.Call)
+						if !isCall || call.Call.StaticCallee() == nil {
+							problems = append(problems, "the buffer is not created by a call")
+							continue
+						}
+						if s.cntField == "" {
+							// reader: bytes.NewBuffer(data) / bytes.NewReader(data) over the parameter itself
+							cal := call.Call.StaticCallee()
+							overParam := len(call.Call.Args) == 1 && len(fn.Params) >= 1 && call.Call.Args[0] == ssa.Value(fn.Params[0])
+							if cal.Pkg == nil || cal.Pkg.Pkg.Path() != "bytes" || (cal.Name() != "NewBuffer" && cal.Name() != "NewReader") || !overParam {
+								problems = append(problems, "the reader's buffer is not bytes.NewBuffer over the octets given (all of them, from the first)")
+							}
+						}
+					}
+				}
+			}
+			if !bufSet {
+				problems = append(problems, "the buffer field is not set")
+			}
+		}
+		c.Decide(len(problems) == 0, "C20-SHAPE", key, c.Prog.Pos(fn.Pos()), "answers a fresh non-nil object: buffer set, no error, counter 0", strings.Join(uniq(problems), "; "))
+	}
+	if found == 0 {
+		c.Broken("C20-SHAPE", "packet."+s.typeName+"#ctor", "no constructor function found")
 	}
 }
